@@ -488,10 +488,9 @@ fn validate_map_field(field: &Field, _entry: &Field) -> Result<()> {
     if entry_fields.len() != 2 {
         fail!("Invalid child data type for map, expected struct with 2 fields");
     }
-    for entry_field in entry_fields {
-        validate_field(entry_field)?;
-    }
-    Ok(())
+    // the entries field is a struct field in its own right: its strategy must be one a struct
+    // admits; this also validates the key and the value field
+    validate_struct_field(entry, entry_fields)
 }
 
 fn validate_union_field(field: &Field, children: &[(i8, Field)], _mode: UnionMode) -> Result<()> {
